@@ -73,6 +73,13 @@ def gen_entry(rng, insts):
     neps = rng.choice((1, 1, 1, 0, 2))
     eps = [refwire.ep4("10.0.11.2", 4000 + i) if i % 2 == 0 else refwire.ep6("2001:db8::b2", 4000 + i) for i in range(neps)]
     extra = [sdgen.to_ref(("lb", 1, 2))] if rng.random() < 0.2 else []
+    r = rng.random()
+    if r < 0.12:
+        # further options that name addresses: an SD endpoint option / a multicast option pointing somewhere else, in front of
+        # or behind the endpoints - the acknowledgement still goes to the address the Subscribe came from
+        other = rng.choice((refwire.ep4("10.0.0.99", 30490, typ=0x24), refwire.ep6("2001:db8::99", 30490, typ=0x26),
+                            refwire.ep4("239.1.1.9", 30490, typ=0x14)))
+        eps = [other] + eps if rng.random() < 0.6 else eps + [other]
     e["o1"], e["o2"] = eps, extra
     return e, ("".join(pat), e["counter"], e["ttl"] == 0, neps)
 
